@@ -530,7 +530,11 @@ func checkCache(h *History, vs []*opView) {
 		// ---- C08: an error never displaces a live positive entry
 		if !sr.positive {
 			for _, prev := range list {
-				if prev.positive && !prev.tc && prev.reply.At < sr.reply.At && (!prev.groupKnown || prev.group == myGroup) && prev.up == sr.up && reached(prev, sr.reply.QueryAt) {
+				// (whichever of the two came in first: a positive answer replaces a
+				// negative entry, a negative one does not replace a live positive
+				// entry - once both are in, the positive one is what the cache holds)
+				bothIn := arrivedBy(prev)+sigma < v.o.SentAt+clMin && arrivedBy(sr)+sigma < v.o.SentAt+clMin && reached(prev, v.o.SentAt)
+				if prev.positive && !prev.tc && (prev.reply.At < sr.reply.At && reached(prev, sr.reply.QueryAt) || bothIn) && (!prev.groupKnown || prev.group == myGroup) && prev.up == sr.up {
 					liveUntil := prev.reply.At + upMin + prev.lifetime - 2*time.Second
 					// (the second level takes stores only after its first successful
 					// ping, one second after start-up)
